@@ -181,6 +181,20 @@ func (c *Ctx) runTop(fn *ssa.Function, spec *FuncSpec, useGaps bool) (err error)
 		}
 	}
 	if exit == nil {
+		// no return instruction was reached by the symbolic execution (every path ended in a panic, in code
+		// outside the subset, or was pruned): the postconditions would hold vacuously. Demand an explicit flag.
+		if _, ok := spec.Flags["noreturn"]; !ok {
+			hasEns := false
+			for _, cl := range spec.Clauses {
+				if cl.Kind == "ensures" {
+					hasEns = true
+				}
+			}
+			if hasEns {
+				o := c.obligeAt(&State{reach: "true"}, "vacuity", c.fn+"/exit-not-reached", "false", "the normal exit is never reached by the symbolic execution, so the ensures clauses would be vacuous")
+				o.Pos = c.P.pos(fn.Pos())
+			}
+		}
 		return nil
 	}
 	c.curPos = fn.Pos()
@@ -230,10 +244,12 @@ func (c *Ctx) runTop(fn *ssa.Function, spec *FuncSpec, useGaps bool) (err error)
 	for i, pc := range pconds {
 		c.oblige(exit, "panics_if", fmt.Sprintf("%s/panics_if#%d", c.fn, i+1), not(pc), "normal return implies the panic condition did not hold")
 	}
-	if _, nf := spec.Flags["noframe"]; !nf {
+	if _, af := spec.Flags["assumedframe"]; af {
+		c.note("ASSUMED: the modifies clause of " + c.fn + " is not checked against its body (flag assumedframe: it writes recycled slots of the trusted storage layer)")
+	} else if _, nf := spec.Flags["noframe"]; !nf {
 		c.frameCheck(fr, spec, exit)
 	} else {
-		c.note("the modifies clause of " + c.fn + " is not checked (thin safety contract, flag noframe); it is never used at call sites of proved functions")
+		c.frameCheckCoarse(fr, spec, exit)
 	}
 	inputs := c.replayInputs(fr, spec, result, exit)
 	for _, o := range c.obls {
@@ -380,6 +396,55 @@ func (c *Ctx) frameCheck(fr *Frame, spec *FuncSpec, exit *State) {
 			continue
 		}
 		c.oblige(exit, "frame", fmt.Sprintf("%s/frame@%s", c.fn, n), goal, "only locations in the modifies clause change in "+n)
+	}
+}
+
+// frameCheckCoarse (flag noframe): the modifies clause is checked at the granularity of heap components
+// only: every component written on some path must be named by some modifies target. Call sites of such
+// a function havoc the named components entirely. Without any modifies clause nothing is checked and
+// call sites havoc every component.
+func (c *Ctx) frameCheckCoarse(fr *Frame, spec *FuncSpec, exit *State) {
+	pre := c.frameEnv(fr, c.st0)
+	pre.old = c.st0
+	allowed := map[string]bool{}
+	n := 0
+	for _, cl := range spec.Clauses {
+		if cl.Kind != "modifies" {
+			continue
+		}
+		n++
+		for _, m := range cl.Mods {
+			for _, t := range c.modTargets(pre, m) {
+				allowed[t.heap] = true
+			}
+		}
+	}
+	if n == 0 {
+		c.note("no frame is declared for " + c.fn + " (flag noframe): call sites assume that it may change anything")
+		return
+	}
+	c.note("the frame of " + c.fn + " is checked per heap component, not per location (flag noframe): call sites havoc the named components entirely")
+	var names []string
+	for h := range exit.heap {
+		names = append(names, h)
+	}
+	sort.Strings(names)
+	for _, h := range names {
+		if exit.heap[h] == heap0Name(h) {
+			continue
+		}
+		o := &Obligation{Name: fmt.Sprintf("%s/frame-coarse@%s", c.fn, h), Kind: "frame", Func: c.fn, Text: "heap component " + h + " is written on some path, so some modifies target must name it", Expect: "unsat", Pos: c.P.pos(fr.fn.Pos()), Backend: "syntactic", Goal: "true", Prefix: 0}
+		if allowed[h] {
+			o.Result = "unsat"
+			c.obls = append(c.obls, o)
+			continue
+		}
+		// not named: only locations allocated by this call may change in this component
+		goal := c.frameFormula(h, nil, exit.heap[h], heap0Name(h), "(< (birth q.r) now0)")
+		if goal == "true" {
+			continue
+		}
+		c.oblige(exit, "frame", fmt.Sprintf("%s/frame@%s", c.fn, h), goal, "no modifies target names "+h+": only locations allocated during the call change in it")
 	}
 }
 
